@@ -205,11 +205,13 @@ fn run_m<M: RawMutex + 'static>(cfg: &Cfg, ops: &[Op], run: &mut Run) {
         (false, false) => Chan::B1(GenericOneshotChannel::new()),
         (false, true) => Chan::BB(GenericOneshotBroadcastChannel::new()),
         (true, false) => {
-            let (tx, rx) = sh::generic_oneshot_channel::<M, Tagged>();
+            let conv = if std::any::TypeId::of::<M>() == std::any::TypeId::of::<PlLock>() { retype(sh::oneshot_channel::<Tagged>()) } else { None };
+            let (tx, rx) = conv.unwrap_or_else(sh::generic_oneshot_channel::<M, Tagged>);
             Chan::S1 { tx: RefCell::new(Some(tx)), rx: RefCell::new(Some(rx)) }
         }
         (true, true) => {
-            let (tx, rx) = sh::generic_oneshot_broadcast_channel::<M, Tagged>();
+            let conv = if std::any::TypeId::of::<M>() == std::any::TypeId::of::<PlLock>() { retype(sh::oneshot_broadcast_channel::<Tagged>()) } else { None };
+            let (tx, rx) = conv.unwrap_or_else(sh::generic_oneshot_broadcast_channel::<M, Tagged>);
             Chan::SB { tx: RefCell::new(Some(tx)), rx: RefCell::new(vec![rx]) }
         }
     };
